@@ -13,7 +13,7 @@ Ltac lra' := first [ lra | (intro; lra) ].
 Lemma C17_clamp : C17_clamp_stmt.
 Proof.
   intros k a. cbv zeta.
-  split; [ | split; [ | split; [ | split; [ | split; [ | split; [ | split; [ | split; [ | split; [ | split ] ] ] ] ] ] ] ] ].
+  split; [ | split; [ | split; [ | split; [ | split; [ | split; [ | split; [ | split; [ | split; [ | split; [ | split; [ | split ] ] ] ] ] ] ] ] ] ] ].
   - intros Hb. split; [ | split ].
     + unfold ret1. rrun_unfold. split_conds; try lra;
         (eexists; split; [ reflexivity | ]); repeat split; try lra;
@@ -29,6 +29,8 @@ Proof.
   - rrun_unfold; e_unfold. split_conds; try lra; reflexivity.
   - rrun_unfold; reflexivity.
   - rrun_unfold; e_unfold. split_conds; try lra; reflexivity.
+  - rrun_unfold; reflexivity.
+  - rrun_unfold; reflexivity.
   - rrun_unfold; e_unfold. split_conds; try lra; reflexivity.
   - unfold ret1. rrun_unfold. split_conds; (eexists; split; [ reflexivity | unfold Rmin; destruct (Rle_dec _ _); lra ]).
   - unfold ret1. rrun_unfold. split_conds; (eexists; split; [ reflexivity | unfold Rmax; destruct (Rle_dec _ _); lra ]).
